@@ -12,12 +12,13 @@
    compilation succeeds and the emitted table is accepted by the validator - hence (with (2)) it evaluates at every
    node to the graph value and at the committer to the trained states at their list positions.
    (5) The traversal feeding the compiler (Model/C01Each.v, span.py Traversal.each) is modelled too and must reproduce the
-   recorded order of Table.add calls exactly on every generated segment; it is proved duplicate-free and in range.
+   recorded order of Table.add calls exactly on every generated segment; it is proved duplicate-free, in range and, for
+   connected segments, exhaustive - so C01_compile_segment needs no hypothesis about the visiting order at all.
    What remains outside the theorems: the tie between these models and the code (symbol-for-symbol comparison of the
-   table and element-for-element comparison of the traversal on every generated segment), that the traversal reaches
-   every node of a connected segment (computed per case), and the runners that execute the table (C02). *)
+   table and element-for-element comparison of the traversal on every generated segment) and the runners that execute
+   the table (C02). *)
 Require Import List Bool ZArith.
-From FV Require Import Lib.Sym Model.C01 Proofs.C01 Model.C01Compile Proofs.C01Compile Proofs.C01Main Model.C01Each Proofs.C01Each.
+From FV Require Import Lib.Sym Model.C01 Proofs.C01 Model.C01Compile Proofs.C01Compile Proofs.C01Main Model.C01Each Proofs.C01Each Proofs.C01EachCover.
 Import ListNotations.
 
 (* every task is evaluated exactly once, and later tasks never change what earlier ones produced *)
@@ -105,18 +106,25 @@ Print Assumptions C01_compile_dataflow.
 
 (* the segment traversal (Model/C01Each.v: Traversal.each - depth-first over the subscriptions, output ports in index order,
    each port's subscriptions in the order they were made, only trained subscribers followed at the tail) hands no node to
-   the compiler twice and only nodes of the segment; so a well-formed graph all of whose nodes it reaches compiles
-   correctly in the traversal's own order. PARTIAL: that it reaches every node of a connected segment is not proved - the
-   length hypothesis is computed for every generated segment *)
-Theorem C01_traversal_partial : forall a nodes conn tail,
+   the compiler twice, only nodes of the segment, and - in a connected segment (connected_b: every node but the head has a
+   first port fed by an earlier node, has made its subscriptions, and only trained nodes subscribe to the tail) - every
+   node *)
+Theorem C01_traversal : forall nodes conn tail,
   NoDup (each nodes conn tail)
   /\ (nodes <> [] -> forall x, In x (each nodes conn tail) -> x < List.length nodes)
-  /\ (wf_graph a nodes = true -> List.length (each nodes conn tail) = List.length nodes ->
-      compile_ok a nodes (each nodes conn tail) = true).
+  /\ (connected_b nodes conn tail = true -> forall i, i < List.length nodes -> In i (each nodes conn tail)).
 Proof.
-  intros a nodes conn tail. split; [apply each_nodup|]. split; [apply each_range|apply compile_traversal].
+  intros nodes conn tail. split; [apply each_nodup|]. split; [apply each_range|].
+  intros Hc. destruct (connected_spec nodes conn tail Hc) as [Hne [Hp [Hcn Ht]]]. exact (each_covers nodes conn tail Hne Hp Hcn Ht).
 Qed.
-Print Assumptions C01_traversal_partial.
+Print Assumptions C01_traversal.
+
+(* segment-level compiler correctness, with the traversal the code uses: a well-formed, connected segment compiles - in the
+   order Traversal.each visits it - to a table the validator accepts *)
+Theorem C01_compile_segment : forall a nodes conn tail,
+  wf_graph a nodes = true -> connected_b nodes conn tail = true -> compile_ok a nodes (each nodes conn tail) = true.
+Proof. exact compile_segment. Qed.
+Print Assumptions C01_compile_segment.
 
 Example C01_compile_correct_witness :
   let nodes := [Node 0 0 0 false 2 (KApply []); Node 1 0 1 true 1 (KTrain (0, 0) (0, 1));
